@@ -485,7 +485,8 @@ func runC11(c *ctx) error {
 		if i%10 == 5 {
 			// boundary shift: two tuples whose values concatenate to the same text with any one-character
 			// separator; one is an adjustment (skipped or not), the other a setup combination or nothing
-			sep := core.Pick(rng, []string{",", "|", " ", "/", ":", "\x00", "\x1f", "\t", "-", "=", ";"})
+			// (also separators that spell the next dimension the way a printed map, a JSON object or a YAML mapping would)
+			sep := core.Pick(rng, []string{",", "|", " ", "/", ":", "\x00", "\x1f", "\t", "-", "=", ";", " os:", ", os=", "\",\"os\":\"", "\nos: ", " os=", "] os:["})
 			d1, d2 := "arch", "os"
 			setup = map[string][]string{d1: {"x" + sep + "y", "x"}, d2: {"z", "y" + sep + "z"}}
 			if rng.Bool() {
